@@ -10,7 +10,7 @@ from fractions import Fraction as F
 
 from .. import flow, order
 from .. import terms as T
-from ..asyncflow import AsyncView, rule_eps_filter
+from ..asyncflow import AsyncView, rule_eps_filter, rule_handoff_topology
 from ..asyncrt import BUFFER, CONN, IN_CLOCK, LATEST, NODE, SIMULATED, mentions, one, popped, queue_ops
 from ..report import AnalysisError, Check
 from ..symeval import SymEval
@@ -472,6 +472,14 @@ def run(chk: Check, model):
     rule_tiling(chk, view, "C03.tiling")
     rule_fifo(chk, view, "C03.fifo")
     rule_counter(chk, view, "C03.counter")
+    # every group handed to a step comes out of push_selection (which stamps seq_in and advances the counter), every queue has its one
+    # producer / consumer pair: nothing can overtake or bypass the selection
+    rule_handoff_topology(chk, view, "C03.counter")
+    # the phase used for the expected arrival of a buffered message is the connection's own phase
+    rcr = view.results["conn.reset"]
+    ph = T.assume(rcr.attr("self", "_phase"), _end_guard(view, "conn.reset"))
+    chk.add("C03.tie", "BUFFER expected arrival uses the connection's phase", ph == S("self.connection.phase"), f"conn.reset stores self._phase = {T.show(ph)[:100]}, expected float(self.connection.phase) "
+            "(sender phase + its delays; the receiving node's phase is the maximum over all its inputs)", chk.loc(view.fi("conn.reset")))
     rule_overlap(chk, view, "C03.overlap")
     rule_window(chk, view, "C03.window")
     rule_eps_filter(chk, view, "C03.eps")
